@@ -215,6 +215,9 @@ func prepare(spec *Spec, flavours []string) *built {
 		go func(i int, fl, bin string) {
 			defer wg.Done()
 			args := []string{"build", "-modfile=" + b.modfile, "-overlay=" + b.overlay, "-o", bin}
+			if spec.TestBinary {
+				args = []string{"test", "-c", "-vet=off", "-modfile=" + b.modfile, "-overlay=" + b.overlay, "-o", bin}
+			}
 			if fl == "race" {
 				args = append(args, "-race")
 			}
@@ -277,9 +280,9 @@ func runWorkers(spec *Spec, b *built, fl string, tier string, n int, runs int, b
 			args := []string{"-check", spec.ID, "-seed", fmt.Sprint(seed()), "-tier", tier, "-worker", fmt.Sprint(w), "-workers", fmt.Sprint(n),
 				"-runs", fmt.Sprint(runs), "-budget", budget.String(), "-out", b.work, "-replays", replayDir, "-flavour", fl, "-tree", b.tree}
 			args = append(args, extra...)
-			cmd := exec.Command(b.bins[fl], args...)
+			cmd := driverCmd(spec, b.bins[fl], args)
 			cmd.Dir = b.work
-			env := append(os.Environ(), "GOMAXPROCS=2", "VERIF_REPO="+repoDir(), "VERIF_DIR="+verifDir)
+			env := append(cmd.Env, "GOMAXPROCS=2", "VERIF_REPO="+repoDir(), "VERIF_DIR="+verifDir)
 			if fl == "race" {
 				env = append(env, fmt.Sprintf("GORACE=halt_on_error=0 exitcode=0 log_path=%s/race-%d", b.work, w))
 			}
@@ -565,9 +568,9 @@ func replay(path string) int {
 	b := prepare(spec, []string{fl})
 	defer os.RemoveAll(b.work)
 	abs, _ := filepath.Abs(path)
-	cmd := exec.Command(b.bins[fl], "-replay", abs)
+	cmd := driverCmd(spec, b.bins[fl], []string{"-replay", abs})
 	cmd.Dir = b.work
-	cmd.Env = append(os.Environ(), "GOMAXPROCS=2", "VERIF_REPO="+repoDir(), "VERIF_DIR="+verifDir)
+	cmd.Env = append(cmd.Env, "GOMAXPROCS=2", "VERIF_REPO="+repoDir(), "VERIF_DIR="+verifDir)
 	if fl == "race" {
 		cmd.Env = append(cmd.Env, "GORACE=halt_on_error=0 exitcode=0")
 	}
@@ -596,10 +599,10 @@ func selftest(spec *Spec) int {
 		var ref []byte
 		for i, gmp := range []string{"1", "4", "16", "2", "8", "1"} {
 			log := filepath.Join(b.work, fmt.Sprintf("fplog-%s-%d", fl, i))
-			cmd := exec.Command(b.bins[fl], "-check", spec.ID, "-seed", fmt.Sprint(seed()), "-tier", "quick", "-workers", "1", "-runs", fmt.Sprint(runs),
-				"-budget", "10m", "-out", b.work, "-replays", filepath.Join(b.work, "replays"), "-flavour", fl, "-fplog", log, "-selftest")
+			cmd := driverCmd(spec, b.bins[fl], []string{"-check", spec.ID, "-seed", fmt.Sprint(seed()), "-tier", "quick", "-workers", "1", "-runs", fmt.Sprint(runs),
+				"-budget", "10m", "-out", b.work, "-replays", filepath.Join(b.work, "replays"), "-flavour", fl, "-fplog", log, "-selftest"})
 			cmd.Dir = b.work
-			cmd.Env = append(os.Environ(), "GOMAXPROCS="+gmp, "VERIF_REPO="+repoDir(), "VERIF_DIR="+verifDir, "GORACE=halt_on_error=0 exitcode=0 log_path="+b.work+"/race-st")
+			cmd.Env = append(cmd.Env, "GOMAXPROCS="+gmp, "VERIF_REPO="+repoDir(), "VERIF_DIR="+verifDir, "GORACE=halt_on_error=0 exitcode=0 log_path="+b.work+"/race-st")
 			out, err := cmd.CombinedOutput()
 			if err != nil {
 				fmt.Printf("INFRA: selftest process failed: %v\n%s\n", err, tail(string(out), 3000))
@@ -654,4 +657,17 @@ func classifyRaceLog(log, repo string) (good, bad int) {
 		}
 	}
 	return
+}
+
+// driverCmd starts a driver: an ordinary binary takes its arguments directly, a
+// test binary (C16: testing/synctest needs a *testing.T) through the environment.
+func driverCmd(spec *Spec, bin string, args []string) *exec.Cmd {
+	if spec.TestBinary {
+		cmd := exec.Command(bin, "-test.run", "^TestDriver$", "-test.timeout", "0")
+		cmd.Env = append(os.Environ(), "VERIF_DRV_ARGS="+strings.Join(args, "\x1f"))
+		return cmd
+	}
+	cmd := exec.Command(bin, args...)
+	cmd.Env = os.Environ()
+	return cmd
 }
